@@ -588,6 +588,7 @@ func r17pcoAddX(c *core.Ctx, R string) {
 		detail := ""
 		nOK := 0
 		okID, gotID := true, ""
+		okOwn, gotOwn := true, ""
 		for _, o := range outs {
 			if o.Panicked {
 				continue
@@ -610,6 +611,9 @@ func r17pcoAddX(c *core.Ctx, R string) {
 				n = cont.Len
 			}
 			nOK++
+			if cont.K == core.ASlice && n > 0 && !strings.HasPrefix(cont.Path, "local:") {
+				okOwn, gotOwn = false, cont.Path
+			}
 			if id, isID := o.Mem.Load(u.Path+".ProtocolOrContainerID", types.Typ[types.Uint16]).ConstVal(); !isID || id != t.id {
 				okID, gotID = false, fmt.Sprintf("%#04x", id)
 				if !isID {
@@ -626,6 +630,10 @@ func r17pcoAddX(c *core.Ctx, R string) {
 			continue
 		}
 		c.Check(ok, R, "nasConvert.PCO."+t.name+":length", f.Pos(), fmt.Sprintf("LengthOfContents = %d = octets appended", t.n), "%s must set LengthOfContents to the %d content octets of its container kind (%s)", t.name, t.n, detail)
+		if t.n > 0 {
+			c.Check(okOwn, R, "nasConvert.PCO."+t.name+":own-copy", f.Pos(), "the container holds its own copy of the content octets",
+				"%s must copy the content octets into the container: it stores a slice of %s, so the option changes when the caller reuses or modifies its argument before Marshal (what was added is no longer what is written)", t.name, gotOwn)
+		}
 		c.Check(okID, R, "nasConvert.PCO."+t.name+":id", f.Pos(), fmt.Sprintf("container identifier %#04x (TS 24.008 table 10.5.154)", t.id), "%s must label its container %#04x (TS 24.008 table 10.5.154); it stores %s", t.name, t.id, gotID)
 	}
 }
